@@ -367,6 +367,22 @@ theorem C10_breaks_groupCreatedByNonAdmin :
     (Site.empty.mutate 1 0 m7).toBool = true ∧
     (imported Defects.none site7 Site.empty).toBool = false := by decide
 
+/-- concurrent edits: instance A (key 1) and instance B (key 2, which imported the room) both make key 5 admin,
+    A at date 1, B at date 4; A then merges B's version -/
+def m8a : MutSpec := { rid := 0, isNew := false, date := 1, admins := [(5, true)], groups := [] }
+def m8b : MutSpec := { rid := 0, isNew := false, date := 4, admins := [(5, true)], groups := [] }
+def siteA8 : Site := match site1.mutate 1 100 m8a with | .ok s => s | .error _ => Site.empty
+def siteB8 : Site := match (importedSite Defects.none site1).mutate 2 200 m8b with | .ok s => s | .error _ => Site.empty
+def siteA8' : Site := match imported Defects.none siteB8 siteA8 with | .ok s => s | .error _ => Site.empty
+
+/-- **C10_breaks_mergeOlderEntry.** `prepare_room_with_history` appends the new admin entries to the importer's
+    live room, which is append-only per key: B, which holds "key 5 admin since 4", cannot import A's merged
+    version carrying "key 5 admin since 1" (`InvalidUserDate`), although A could import B's. No switch removes
+    this. (Replayed on the real code: corpus/C10/merge-older-entry.ops.) -/
+theorem C10_breaks_mergeOlderEntry :
+    (imported Defects.none siteB8 siteA8).toBool = true ∧
+    (imported Defects.none siteA8' siteB8).toBool = false := by decide
+
 /-- at date 1 (the date of the creation) key 1 disables admin 2: two entries of key 2 with one date -/
 def m6 : MutSpec := { rid := 0, isNew := false, date := 1, admins := [(2, false)], groups := [] }
 def site6 : Site := match site1.mutate 1 (0 + m1.size) m6 with | .ok s => s | .error _ => Site.empty
